@@ -4,6 +4,7 @@ from harness import classify_common as K
 from harness import gen_classify as G
 
 PROP = 'C01'
+MODELS = ['Model/ClassifyData.vo', 'Model/DepthView.vo']   # .vo files the generated case files import
 KEEP = {'C01'}
 
 
